@@ -74,6 +74,21 @@ def o_sign(ctx, case):
     ctx.check((v, r, s) == want, "sign", "value", case, f"signature {(v, r, s)} != model {want}")
     ctx.check(SECP.verify(Q, z % N, r, s), "sign", "verify", case,
               "signature does not satisfy the ECDSA verification equation under d*G")
+    # the same call with MUTABLE byte arguments (the functions accept them): same signature, arguments
+    # untouched, and the result is repeatable with the very same objects
+    kb, hb = bytearray(priv), bytearray(h)
+    try:
+        sig_b = m.ecdsa_raw_sign(hb, kb)
+    except TypeError:
+        ctx.label("bytearray_refused")             # a stricter type gate would be legitimate
+    else:
+        ctx.check(tuple(sig_b) == (v, r, s), "sign", "bytearray_key", case,
+                  f"ecdsa_raw_sign with bytearray arguments gives {tuple(sig_b)}, with bytes {(v, r, s)}")
+        ctx.check(bytes(kb) == priv and bytes(hb) == h, "sign", "argument_mutated", case,
+                  "ecdsa_raw_sign changed the bytearray it was given")
+        ctx.check(tuple(m.ecdsa_raw_sign(hb, kb)) == (v, r, s), "sign", "not_repeatable", case,
+                  "second call with the same bytearray objects differs")
+        ctx.label("bytearray_arguments")
     # recovery
     pub = tuple(m.privtopub(priv))
     ctx.check(pub == to_lib(Q), "sign", "privtopub", case, f"privtopub={pub}, model d*G={to_lib(Q)}")
